@@ -241,12 +241,15 @@ def aggregate(pid, prop, tier, seed, rundir, nshards, status, t0, replay=False):
             if key in seen_cls:
                 continue
             seen_cls.add(key)
+            if len(json.dumps(e["case"])) > 40000:
+                continue       # (evidence stays small: big cases are described by their class tags only)
             samples.append({"case": e["case"], "verdict": e["v"], "tags": e["tags"]})
             if len(samples) >= 12:
                 break
     for e in viol[:4]:
         if "case" in e:
-            samples.append({"case": e["case"], "verdict": e["v"], "tags": e["tags"], "finding": e.get("fid"), "msg": (e.get("msg") or "")[:300]})
+            big_ = len(json.dumps(e["case"])) > 40000
+            samples.append({"case": e["case"] if not big_ else {"note": "case body too large for the evidence file; see the replay file"}, "verdict": e["v"], "tags": e["tags"], "finding": e.get("fid"), "msg": (e.get("msg") or "")[:300]})
     if not samples:
         samples = [{"note": "no case bodies recorded", "events": len(events)}]
     rnd_planned = sum(s.get("random_planned", 0) for s in summaries)
